@@ -114,7 +114,12 @@ Aux:
 					if len(args) <= ai {
 						panic(fmt.Sprintf("Missing value for key :%s.", sym))
 					}
-					ss.Let(sym, args[ai])
+					// Other keys are allowed but only the &key parameters
+					// are bound, never a parameter of another kind that
+					// happens to have the same name.
+					if lam.Doc.keyParam(i, string(sym)) {
+						ss.Let(sym, args[ai])
+					}
 					ai++
 					continue
 				}
